@@ -2,6 +2,8 @@ package harness
 
 import (
 	"fmt"
+	"github.com/apache/yunikorn-core/pkg/metrics"
+	"github.com/apache/yunikorn-core/pkg/webservice/dao"
 	"runtime"
 	"runtime/debug"
 	"strings"
@@ -175,6 +177,7 @@ func newWorldYAML(y string, opts WorldOpts, checks ...string) (*World, string) {
 	}
 	worldMu.Lock()
 	InitLogging()
+	configs.SetConfigMap(LogConfig)
 	events.Init()
 	m := ugm.GetUserManager()
 	m.ClearUserTrackers()
@@ -242,8 +245,23 @@ func (w *World) Close() {
 	if w.CC != nil && !w.Dead {
 		func() {
 			defer func() { _ = recover() }()
+			// the queue metrics of the core are registered per queue path in a process wide registry and never dropped:
+			// worlds with dynamic queues (placement) would otherwise grow the process by ~250 KB per case
 			for _, p := range w.CC.GetPartitionMapClone() {
-				_ = p
+				// pending timers (days for terminated applications) keep the whole instance alive: ~1 MB per case
+				for _, list := range [][]*objects.Application{p.GetApplications(), p.GetCompletedApplications(), p.GetRejectedApplications()} {
+					for _, a := range list {
+						a.VerifStopTimers()
+					}
+				}
+				var walk func(q dao.PartitionQueueDAOInfo)
+				walk = func(q dao.PartitionQueueDAOInfo) {
+					metrics.RemoveQueueMetrics(q.QueueName)
+					for _, c := range q.Children {
+						walk(c)
+					}
+				}
+				walk(p.GetPartitionQueues())
 			}
 			w.CC.Stop()
 		}()
